@@ -5,7 +5,7 @@
    "Never a panic" is decided by the correspondence (every verdict of the real code is taken under
    catch_unwind and the model is total). *)
 From Coq Require Import List NArith Bool.
-From AG Require Import Gen.Params Model.Pool Model.Validate Proofs.ValidateProofs.
+From AG Require Import Gen.Params Model.Pool Model.Validate Proofs.ValidateProofs Proofs.FractionProofs.
 Import ListNotations.
 Open Scope N_scope.
 
@@ -35,6 +35,21 @@ Theorem C09_declared_stake_irrelevant : forall e c d,
   validate_cert e (mkSCert (sc_kind c) (sc_slot c) (sc_hash c) (sc_h1 c) (sc_h2 c) d) = validate_cert e c.
 Proof. exact declared_stake_irrelevant. Qed.
 
+(* the stake thresholds: Fraction::is_met multiplies 64-bit operands in 128 bits; for every 64-bit stake, total and
+   fraction this is exactly the comparison of unbounded naturals the models use (no product wraps) ... *)
+Theorem C09_threshold_arithmetic_exact : forall num den value total,
+  num < 2 ^ 64 -> den < 2 ^ 64 -> value < 2 ^ 64 -> total < 2 ^ 64 ->
+  is_met_u128 num den value total = is_met num den value total.
+Proof. exact is_met_u128_exact. Qed.
+
+(* ... whereas the same cross-multiplication in saturating 64-bit arithmetic admits 25 % of a total stake of 1.6e19
+   as a 60 % quorum *)
+Theorem C09_saturating_threshold_arithmetic_refuted :
+  let total := 16000000000000000000 in let value := 4000000000000000000 in
+  total < 2 ^ 64 /\ value < 2 ^ 64 /\
+  is_met_sat64 3 5 value total = true /\ is_met 3 5 value total = false.
+Proof. exact is_met_sat64_refuted. Qed.
+
 Example C09_nonvacuous :
   let e := mkEpoch [1; 1; 1; 1; 1] 0 in
   let p := mkPayload 0 7 3 in
@@ -51,4 +66,6 @@ Print Assumptions C09_payload_domain_separation.
 Print Assumptions C09_cert_admitted_only_if.
 Print Assumptions C09_verifying_half_is_signed_by_its_signers.
 Print Assumptions C09_declared_stake_irrelevant.
+Print Assumptions C09_threshold_arithmetic_exact.
+Print Assumptions C09_saturating_threshold_arithmetic_refuted.
 Print Assumptions C09_nonvacuous.
